@@ -212,6 +212,8 @@ def calc_phase_permutation(
     moved = set()
     swaps = 0
     for ax in perm:
+        # allow axes counted from the end, as `transpose` does
+        ax = ax % len(parities)
         # we are moving charge at ax to the beginning
         if parities[ax]:
             # if it is odd, count how many odd charges it crosses
